@@ -7,6 +7,15 @@ from engine.env import NoTracing, build_cells, sym_doc, valid_cell
 F = "/vfs/f.md"
 
 
+def raised_verdict(obs):
+    """An exception that escaped the application into the harness: a tokenization error is
+    C01's finding (the other properties quantify over documents that parse); anything else
+    makes the path inconclusive -- it is never reported as a violation of this property."""
+    if obs.outer_type == "BadTokenizationError":
+        return []
+    raise env.CrosshairUnsupported("exception escaped into the harness: " + obs.outer_type + "/" + obs.root_type + "@" + obs.site)
+
+
 class DocMixin:
     restrict_domain = True
     allow_cr = False
@@ -53,7 +62,7 @@ class C07Harness(DocMixin):
 
     def judge(self, obs, v):
         if isinstance(obs, Raised):
-            return [{"kind": "harness-exception", "detail": obs.describe()}]
+            return raised_verdict(obs)
         d, o1, o2 = obs
         return scan_props.c07(d, o1.fail_tuples(), o2.fail_tuples(), o1.err, o1.code)
 
@@ -97,7 +106,7 @@ class C07OrderKernel:
 
     def judge(self, obs, v):
         if isinstance(obs, Raised):
-            return [{"kind": "harness-exception", "detail": obs.describe()}]
+            return raised_verdict(obs)
         fs, ordered = obs
         out = []
         for a, b in zip(ordered, ordered[1:]):
@@ -191,7 +200,7 @@ class C12Harness(DocMixin):
 
     def judge(self, obs, v):
         if isinstance(obs, Raised):
-            return [{"kind": "harness-exception", "detail": obs.describe()}]
+            return raised_verdict(obs)
         d, res = obs
         return scan_props.c12(res, self.ids, self.default_ids)
 
@@ -266,7 +275,7 @@ class C14Harness(DocMixin):
 
     def judge(self, obs, v):
         if isinstance(obs, Raised):
-            return [{"kind": "harness-exception", "detail": obs.describe()}]
+            return raised_verdict(obs)
         o, log, ds, toks = obs
         if scan_props.mentions(o.err, "Error"):
             return []
@@ -348,7 +357,7 @@ class C16Harness(DocMixin):
 
     def judge(self, obs, v):
         if isinstance(obs, Raised):
-            return [{"kind": "harness-exception", "detail": obs.describe()}]
+            return raised_verdict(obs)
         d, routes, fixed, left = obs
         out = scan_props.c16(routes, fixed)
         if left:
@@ -436,7 +445,7 @@ class C13Harness:
 
     def judge(self, obs, v):
         if isinstance(obs, Raised):
-            return [{"kind": "harness-exception", "detail": obs.describe()}]
+            return raised_verdict(obs)
         if obs[0] == "error":
             return []
         _, d1, d2, mf, sf, mp, sp, mt, st, mfx, sfx = obs
@@ -497,7 +506,7 @@ class C18Kernel:
 
     def judge(self, obs, v):
         if isinstance(obs, Raised):
-            return [{"kind": "harness-exception", "detail": obs.describe()}]
+            return raised_verdict(obs)
         code, name, minimal = obs
         return scan_props.c18(code, [], [], [], minimal, forced_category=name)
 
@@ -561,7 +570,7 @@ class C18Harness(DocMixin):
 
     def judge(self, obs, v):
         if isinstance(obs, Raised):
-            return [{"kind": "harness-exception", "detail": obs.describe()}]
+            return raised_verdict(obs)
         o = obs
         fails = o.fails
         if self.sc == "list":
@@ -599,7 +608,7 @@ class C18Concrete:
 
     def judge(self, obs, v):
         if isinstance(obs, Raised):
-            return [{"kind": "harness-exception", "detail": obs.describe()}]
+            return raised_verdict(obs)
         return scan_props.c18(obs.code, obs.err, obs.fails, obs.fixed, bool(self.p.get("minimal")), forced_category=self.p["category"])
 
     def digest(self, obs, rv):
@@ -710,7 +719,7 @@ class C15Harness(DocMixin):
 
     def judge(self, obs, v):
         if isinstance(obs, Raised):
-            return [{"kind": "harness-exception", "detail": obs.describe()}]
+            return raised_verdict(obs)
         if obs[0] == "crash":
             _, o, crashed, originals, fixed_alone = obs
             return scan_props.c15_crash(o.files, crashed, [A, B], originals, fixed_alone)
